@@ -412,7 +412,7 @@ def cases(draw):
         bg["bursts"] = draw(st.lists(st.tuples(_grid(Tcs, anchors), st.integers(1, 50)).map(list), min_size=1, max_size=4))
     elif bgk == "other":
         bg["times"] = draw(st.lists(_grid(Tcs, anchors), min_size=1, max_size=6))
-    nprog = draw(st.sampled_from([0, 0, 1, 2, 3, 5]))
+    nprog = draw(st.sampled_from([0, 0, 1, 2, 3, 5, 8]))
     prog = []
     for _ in range(nprog):
         t = draw(_grid(Tcs, anchors))
@@ -420,7 +420,7 @@ def cases(draw):
         fields = draw(st.sampled_from([["progress", "total", "message"], ["progress"], ["progress", "total"], [], ["total", "message"]]))
         prog.append([t, tok, fields, draw(_vals)])
     prog.sort(key=lambda p: p[0])
-    cb_raise = draw(st.lists(st.integers(0, 4), max_size=3, unique=True)) if nprog else []
+    cb_raise = draw(st.one_of(st.lists(st.integers(0, 4), max_size=3, unique=True), st.lists(st.integers(0, 7), max_size=8, unique=True))) if nprog else []
     case = {"T": Tcs, "tc": tc, "tr": tr, "bg": bg, "progress": prog, "cb_raise": sorted(cb_raise),
             "use_cb": draw(st.sampled_from([True, True, True, False])), "use_token": draw(st.booleans())}
     if tc is not None and tc > 0 and draw(st.integers(0, 4)) == 0 and not cancelled_case(case):
@@ -491,6 +491,13 @@ def job_grid(col: Collector, seed: int, tier: str, shard: int, nshards: int) -> 
                 continue
             case = {"T": 700, "tc": k * 50 + off, "tr": None, "bg": {"kind": "none"}, "progress": [], "cb_raise": [], "use_cb": False, "use_token": True}
             col.record(case, check(case))
+    if shard == 0:
+        # a callback that keeps failing: 6 own-token notifications, every subset of them raising (each must still be delivered once)
+        for mask in range(64):
+            prog6 = [[10 + 15 * j, "right", ["progress", "total"], [j, 6, None]] for j in range(6)]
+            case = {"T": 120, "tc": None, "tr": 110 if mask % 2 == 0 else None, "bg": {"kind": "none"}, "progress": prog6, "cb_raise": [j for j in range(6) if mask >> j & 1], "use_cb": True, "use_token": False}
+            col.record(case, check(case))
+        col.exhaustive_parts.append("6 own-token progress notifications x all 64 subsets of positions at which the callback raises")
     if shard == 0:
         col.exhaustive_parts.append("all (cancel, response) placements over {never, before-call} U 11 grid instants with T=1.2 s x {no traffic, flood, burst right after the cancel}; quiet 7 s waits with the cancel after 0..11 idle poll intervals x 3 offsets")
 
